@@ -543,6 +543,9 @@ def extract_rule(P, chk):
         return (r.kind == "capture" and r.name == "self" and tuple(r.fields) == (f,)) or is_p(r, "self", (f,))
 
     def is_cur(r, f):
+        # the matched fragment: the update closure's argument, or (written in line) the payload of match_expr.extract(..)?
+        if r.kind == "call" and str(r.name).endswith("MatchOrExpr::extract") and tuple(r.fields[-1:]) == (f,):
+            return True
         return r.kind == "param" and tuple(r.fields) == (f,) and not is_p(r, "self")
     # payee: rule's payee wins over captured / running payee
     ss = stores.get("payee", [])
@@ -557,6 +560,10 @@ def extract_rule(P, chk):
     ss = stores.get("account", [])
     ok = len(ss) == 1 and ss[0][1]["k"] == "use" and q.all_roots(c, ss[0][1]["op"], lambda r: is_self(r, "account"))
     acc_uncond = ok and c.must_pass_block(c.return_blocks()[0], ss[0][0]) if ss and c.return_blocks() else False
+    if ok and not acc_uncond:
+        # written in line after `let matched = ..?;`: every path that produces a fragment stores the account
+        somes = [bb_ for bb_, v_, rv_ in q.ok_err_assignments(c) if v_ == "Some"]
+        acc_uncond = bool(somes) and all(bb_ == ss[0][0] or c.must_pass_block(bb_, ss[0][0]) for bb_ in somes)
     acc_gated = False
     if ok and not acc_uncond:
         acc_gated = any(cn == "std::option::Option::is_some" and lab is True and q.all_roots(c, ct["args"][0], lambda r: is_self(r, "account"))
@@ -585,6 +592,7 @@ def extract_rule(P, chk):
             return True
         return bool(rs) and all(is_cur(r, "account") for r in rs) and acc_uncond
     bad_tab, bad_gate = [], []
+    returns_option = str(c.local_ty(0)).startswith(("std::option::Option<", "core::option::Option<"))
     try:
         paths = mir.enumerate_paths(c, limit=4000)
     except mir.TooManyPaths:
@@ -611,6 +619,9 @@ def extract_rule(P, chk):
                                 okp = False
                     if not okp:
                         continue
+                    if returns_option and not (p.shape and p.shape[0] == "assign" and p.shape[2].get("k") == "aggregate"
+                                               and p.shape[2].get("variant") == "Some"):
+                        continue        # `?` on a rule that did not match: no fragment is produced on this path
                     pb = mir.path_body(c, p.blocks)
                     st = field_stores(pb, FRAG).get("cleared", [])
                     try:
@@ -634,7 +645,17 @@ def extract_rule(P, chk):
     ms = [(bb, t) for bb, t in r.calls() if OREX in callee_names(t)]
     ok = len(ms) == 1 and q.all_roots(r, ms[0][1]["args"][1], lambda x: is_p(x, "current"))
     rs0 = prov(r, {"l": 0, "p": []})
-    ok = ok and bool(rs0) and all(x.kind == "call" and x.name == "std::option::Option::map" for x in rs0)
+    by_map = bool(rs0) and all(x.kind == "call" and x.name == "std::option::Option::map" for x in rs0)
+    # or: `let matched = self.match_expr.extract(..)?; Some(Fragment{..})` - None is handed on by `?`, Some only after it
+    by_try = False
+    if ms and not by_map:
+        mbb = ms[0][0]
+        somes = [bb_ for bb_, v_, rv_ in q.ok_err_assignments(r) if v_ == "Some"]
+        others = [v_ for bb_, v_, rv_ in q.ok_err_assignments(r) if v_ not in ("Some",) and not v_.endswith("from_residual")]
+        tried = [bb_ for bb_, t_ in r.calls() if (callee_def(t_) or "").endswith("Try::branch") and
+                 q.all_roots(r, t_["args"][0], lambda x: x.kind == "call" and x.site == mbb)]
+        by_try = bool(somes) and not others and len(tried) == 1 and all(r.must_pass_block(bb_, tried[0]) for bb_ in somes)
+    ok = ok and (by_map or by_try)
     chk.require(ok, R_RULES, "ExtractRule|matches first, updates only a match", r.loc(), "result is %s" % sorted(mir.show_root(x) for x in rs0),
                 "self.match_expr.extract(current, entity).map(update)")
 
